@@ -34,7 +34,17 @@ type site struct {
 func main() {
 	dir := flag.String("dir", "/repo", "module directory")
 	out := flag.String("out", "", "output directory for rewritten copies")
+	extract := flag.Bool("extract", false, "extraction mode: select cases / synchronous start-up of the ordering packages")
 	flag.Parse()
+	if *extract {
+		rep := map[string]string{}
+		if err := runExtract(*dir, *out, rep); err != nil {
+			fmt.Fprintln(os.Stderr, "extract:", err)
+			os.Exit(2)
+		}
+		json.NewEncoder(os.Stdout).Encode(map[string]interface{}{"Replace": rep})
+		return
+	}
 	cfg := &packages.Config{
 		Mode: packages.NeedName | packages.NeedFiles | packages.NeedCompiledGoFiles | packages.NeedSyntax | packages.NeedTypes | packages.NeedTypesInfo | packages.NeedImports | packages.NeedDeps,
 		Dir:  *dir,
